@@ -83,7 +83,16 @@ pub trait Interface: ErrorHandler {
                 #[cfg(feature = "defmt")]
                 defmt::trace!("Parse error");
                 self.handle_error(error.into());
-                return input;
+
+                // Discard the rest of the faulty message and continue with the next one.
+                match input.iter().position(|b| *b == b'\n') {
+                    Some(position) => {
+                        input = &input[position + 1..];
+                        header = self.root_node();
+                        continue;
+                    }
+                    None => return input,
+                }
             }
 
             let (i, call) = result.unwrap();
